@@ -297,6 +297,9 @@ def _x1_lattice(prog, res):
                   a.value.right, ast.List) and dotted(a.targets[0]) == dotted(
                       a.value.left):
             adds[dotted(a.targets[0])] = a.value.right
+          if isinstance(a, ast.AugAssign) and isinstance(a.op, ast.Add) and \
+              isinstance(a.value, ast.List):
+            adds[dotted(a.target)] = a.value
         if 'lattice_sizes' in adds:
           for nm in ('monotonicities', 'unimodalities'):
             if nm not in fn.all_params:
